@@ -24,7 +24,7 @@ Definition op_pre (h : heap) (o : op) : Prop :=
 
 Lemma run_op_S : forall V f o,
   run_op V (S f) o =
-  ((match o with ONop => ret tt | _ => log_op o end) ;;;
+  ((match o with ONop | OFrameRef _ | OFrameUnref _ => ret tt | _ => log_op o end) ;;;
    match o with
    | ONew p hid low rp st => window_new f p hid low rp st ;;; ret tt
    | ORef w => window_ref w
@@ -44,8 +44,7 @@ Lemma run_op_S : forall V f o,
    | OUnbind w id => upd w (fun c => set_hs c (filter (fun hd => negb (h_id hd =? id)) (w_hs c)))
    | OGeom w => getw w ;;; ret tt
    | ONop => ret tt
-   | OFrameRef w => window_ref w
-   | OFrameUnref w => unref V f w
+   | OFrameRef _ | OFrameUnref _ => ret tt
    end).
 Proof. reflexivity. Qed.
 
@@ -69,11 +68,11 @@ Proof.
   intros fuel o h HI Hef Hpre. destruct fuel as [|f]; [cbn; exact I|].
   rewrite run_op_S. unfold bind at 1.
   (* the call is logged first *)
-  assert (Hlog : exists h1, (match o with ONop => ret tt | _ => log_op o end) h = Ok tt h1 /\ hinv [] h1 /\
+  assert (Hlog : exists h1, (match o with ONop | OFrameRef _ | OFrameUnref _ => ret tt | _ => log_op o end) h = Ok tt h1 /\ hinv [] h1 /\
                             (forall a, findw h1 a = findw h a) /\ (forall x b, anc h x b -> anc h1 x b)).
   { destruct o; try (eexists; split; [reflexivity|]; split; [apply hinv_log; exact HI|]; split; [reflexivity|];
                      intros x0 y0 Ha; eapply anc_same_wins; [|exact Ha]; reflexivity).
-    exists h. split; [reflexivity|]. auto. }
+    all: (exists h; split; [reflexivity|]; auto). }
   destruct Hlog as [h1 [Hrun [HI1 [Fw1 Hanc1]]]]. rewrite Hrun.
   destruct o; cbn in Hpre, Hef; try discriminate.
   - (* ONew *)
@@ -89,11 +88,11 @@ Proof.
     specialize (Hu Hf h1 eq_refl). destruct (upd w _ h1); tauto.
   - (* OUnref *)
     rewrite <- Fw1 in Hpre. destruct (life_ok f) as [Hun _].
-    pose proof (Hun [] h1 w HI1 (detached_nil h1) Hpre (fun x => x) h1 eq_refl) as Hu.
+    pose proof (Hun [] h1 w HI1 (detached_nil h1) Hpre (fun x => x) (fun _ _ _ (x : In root []) => x) h1 eq_refl) as Hu.
     destruct (unref fixed f w h1); tauto.
   - (* OClose *)
     rewrite <- Fw1 in Hpre. destruct (live_some h1 w Hpre) as [cw Hw].
-    pose proof (close_spec [] f w cw h1 HI1 Hw h1 eq_refl) as Hc.
+    pose proof (close_spec [] f w cw h1 HI1 Hw (fun _ (x : In root []) => x) h1 eq_refl) as Hc.
     destruct (close fixed f w h1); tauto.
   - (* ORestack *)
     destruct Hpre as [Hrs [cw [Hw Hat]]]. rewrite <- Fw1 in Hw.
@@ -202,7 +201,7 @@ Proof.
     + intro q. split; [intros []|]. intro H. rewrite Fq in H. congruence.
     + intros q cq Hq. rewrite Fq in Hq. discriminate.
   - intros q cq Hq. rewrite Fq in Hq. discriminate.
-  - reflexivity.
+  - exists None. split; [reflexivity|]. intros d Ed. discriminate.
   - intros a Ha. rewrite Fw in Ha. destruct (Pos.eqb a root) eqn:E; [|congruence].
     apply Pos.eqb_eq in E. subst a. unfold root. cbn. lia.
   - unfold root. cbn. lia.
